@@ -33,15 +33,22 @@ Theorem gen_compile_checks_agrees : forall xs,
   compile (x_st xs) = ((if C.compile_checks xs then set_compiled (x_st xs) else x_st xs), C.compile_checks xs).
 Proof.
   intros xs K E. unfold compile, C.compile_checks, x_any_pending, x_any_node. rewrite E.
-  destruct (g_has_start (x_st xs)); simpl; [|reflexivity].
-  destruct (g_has_end (x_st xs)); simpl; [|reflexivity].
+  destruct (g_has_start (x_st xs)); destruct (g_has_end (x_st xs)); cbn [negb andb orb]; try reflexivity.
   destruct (g_tvm (x_st xs)); [|reflexivity].
-  assert (X : existsb (fun kn : key * node => rt_is_nil (n_in (snd kn)) || rt_is_nil (n_out (snd kn))) (g_nodes (x_st xs)) =
-              existsb (fun p : key * node => match n_in (snd p) with None => true | Some _ => false end) (g_nodes (x_st xs))).
-  { apply existsb_ext_in. intros p Hp. destruct (K p Hp) as [K1 K2].
-    destruct (n_in (snd p)) as [a|]; destruct (n_out (snd p)) as [b|]; simpl; try reflexivity.
-    - specialize (K2 eq_refl). discriminate. }
-  rewrite X. match goal with |- context [existsb ?f ?l] => destruct (existsb f l) end; reflexivity.
+  (* whatever way the untyped-node test is spelled, on these states it is "the input type is unknown" *)
+  match goal with |- context [existsb ?f (g_nodes (x_st xs))] =>
+    match f with
+    | (fun p : key * node => match n_in (snd p) with None => true | Some _ => false end) => fail 1
+    | _ =>
+      assert (X : existsb f (g_nodes (x_st xs)) =
+                  existsb (fun p : key * node => match n_in (snd p) with None => true | Some _ => false end) (g_nodes (x_st xs)))
+        by (apply existsb_ext_in; intros p Hp; destruct (K p Hp) as [K1 K2];
+            destruct (n_in (snd p)) as [a|]; destruct (n_out (snd p)) as [b|]; simpl; try reflexivity;
+            try (specialize (K2 eq_refl); discriminate); try (specialize (K1 eq_refl); discriminate));
+      rewrite X
+    end
+  end.
+  match goal with |- context [existsb ?f ?l] => destruct (existsb f l) end; reflexivity.
 Qed.
 
 Theorem gen_handler_convs_agrees : forall xs k n ti to,
